@@ -58,6 +58,20 @@ func Shapes() []Shape {
 			spec.Extensions = keep
 		}}},
 	)
+	// A TLS 1.3 client that puts the middlebox-compatibility change_cipher_spec record (RFC 8446 appendix D.4) directly
+	// behind its ClientHello, in the same write: the server ignores the record, the handshake completes, and the
+	// ClientHello the client sent is still its first record and nothing more
+	for _, s := range []struct {
+		n  string
+		id *utls.ClientHelloID
+	}{{"chrome102-ccs-behind-hello", id(utls.HelloChrome_102)}, {"firefox105-ccs-behind-hello", id(utls.HelloFirefox_105)}} {
+		out = append(out, Shape{s.n, bubble.Hello{Name: s.n, ID: s.id, SNI: "localhost", Filter: func(off int64, b []byte) []byte {
+			if off == 0 && len(b) > 5 && b[0] == 0x16 {
+				return append(append([]byte{}, b...), 0x14, 0x03, 0x03, 0x00, 0x01, 0x01)
+			}
+			return b
+		}}})
+	}
 	// ClientHellos that fill their TLS record to (nearly) the 2^14 limit: the padding extension is sized so that the
 	// handshake message is exactly `total` bytes long
 	for _, total := range []int{16384, 16381, 16379} {
